@@ -1003,7 +1003,7 @@ class Steward(object):
         data['fragment'] = fragment
 
         data['headers'] = copy.copy(self.requestant.headers)  # make copy
-        data['body'] = self.requestant.body.decode('utf-8')
+        data['body'] = self.requestant.body.decode('utf-8', 'replace')  # body may be binary
         data['data'] = copy.copy(self.requestant.data)  # make copy
 
         msg = self.responder.build(status=200, data=data)
